@@ -16,6 +16,8 @@ L5 (parse side): `fromCst` for the container fragment — a transliteration, bug
   * `expressions/select.py`      `Select.from_cst`
   * `expressions/unary.py`       `UnaryExpression.from_cst`
   * `expressions/binary.py`      `BinaryExpression.from_cst` (without comments around the operator)
+  * `expressions/if_expression.py` `IfExpression.from_cst`
+  * `expressions/has_attr.py`    `HasAttrExpression.from_cst`
   * `expressions/function/definition.py` `FunctionDefinition.from_cst` (identifier argument, `_collect_colon_trivia`)
                                  (with `split_inline_comments`, `append_gap_trivia`)
 
@@ -77,6 +79,15 @@ inductive Expr where
   /-- `BinaryExpression(operator=Operator(name), left, right, operator_gap_lines, right_gap_lines)`; the
       operator carries no trivia (no comments around it in the fragment) -/
   | bin (op : Text) (left right : Expr) (opGapLines rightGapLines : Nat) (before after : List Trivia)
+  /-- `IfExpression(condition, consequence, alternative, condition_gap, after_if_comments, after_if_gap,
+      before_then_comments, before_then_gap, after_then_comments, then_gap, before_else_comments, before_else_gap,
+      after_else_comments, else_gap)` -/
+  | ite (cond thn els : Expr) (condGap : Text) (aic : List Trivia) (aiGap : Text) (btc : List Trivia) (btGap : Text)
+      (atc : List Comment) (thenGap : Text) (bec : List Trivia) (beGap : Text) (aec : List Comment) (elseGap : Text)
+      (before after : List Trivia)
+  /-- `HasAttrExpression(expression, attrpath, left_gap, right_gap, before_question_comments,
+      after_question_comments)`; `attrpath` is kept as its `.`-separated segments -/
+  | has (expr : Expr) (attrs : List Text) (leftGap rightGap : Text) (bqc aqc : List Trivia) (before after : List Trivia)
 
 /-- `NixSourceCode(expressions, trailing)` -/
 structure Src where
@@ -84,6 +95,8 @@ structure Src where
   trailing : List Trivia
 
 def Expr.before : Expr → List Trivia
+  | .ite _ _ _ _ _ _ _ _ _ _ _ _ _ _ b _ => b
+  | .has _ _ _ _ _ _ b _ => b
   | .bin _ _ _ _ _ b _ => b
   | .un _ _ _ _ b _ => b
   | .lam _ _ _ _ _ b _ => b
@@ -99,6 +112,8 @@ def Expr.before : Expr → List Trivia
   | .selOr _ _ _ _ _ _ _ b _ => b
 
 def Expr.after : Expr → List Trivia
+  | .ite _ _ _ _ _ _ _ _ _ _ _ _ _ _ _ a => a
+  | .has _ _ _ _ _ _ _ a => a
   | .bin _ _ _ _ _ _ a => a
   | .un _ _ _ _ _ a => a
   | .lam _ _ _ _ _ _ a => a
@@ -114,6 +129,8 @@ def Expr.after : Expr → List Trivia
   | .selOr _ _ _ _ _ _ _ _ a => a
 
 def Expr.setBefore : Expr → List Trivia → Expr
+  | .ite c t e cg aic aig btc btg atc tg bec beg aec eg _ a, b => .ite c t e cg aic aig btc btg atc tg bec beg aec eg b a
+  | .has e ats lg rg bq aq _ a, b => .has e ats lg rg bq aq b a
   | .bin o l r x y _ a, b => .bin o l r x y b a
   | .un o e g bt _ a, b => .un o e g bt b a
   | .lam n c g k bd _ a, b => .lam n c g k bd b a
@@ -129,6 +146,8 @@ def Expr.setBefore : Expr → List Trivia → Expr
   | .selOr e ats g ab d dg db _ a, b => .selOr e ats g ab d dg db b a
 
 def Expr.setAfter : Expr → List Trivia → Expr
+  | .ite c t e cg aic aig btc btg atc tg bec beg aec eg b _, a => .ite c t e cg aic aig btc btg atc tg bec beg aec eg b a
+  | .has e ats lg rg bq aq b _, a => .has e ats lg rg bq aq b a
   | .bin o l r x y b _, a => .bin o l r x y b a
   | .un o e g bt b _, a => .un o e g bt b a
   | .lam n c g k bd b _, a => .lam n c g k bd b a
@@ -376,6 +395,23 @@ def lamFromCst (name : Text) (c1 : GC) (g1 g2 : Text) (body : Expr) : Expr :=
   let body := if trivia.isEmpty then body else body.setBefore (trivia ++ body.before)
   .lam name (collectTrivia c1 g1) g1 (if n > 0 then 1 else 0) body [] []
 
+/-- the comments between `then` / `else` and the branch: `collect_comments_between_with_gap(…, allow_inline=True)`,
+    then `split_inline_comments`: the inline ones stay behind the keyword, the others go in front of the branch -/
+def branchFromCst (e : Expr) (c : GC) (g : Text) : Expr × List Comment :=
+  let cs := collectTrivia c g
+  if cs.isEmpty then (e, [])
+  else
+    let sp := splitInline cs
+    (if sp.1.isEmpty then e else e.setBefore (sp.1 ++ e.before), sp.2)
+
+/-- `IfExpression.from_cst(node)` given the parsed condition, consequence and alternative -/
+def iteFromCst (ce te ee : Expr) (c1 : GC) (g1 : Text) (c2 : GC) (g2 : Text) (c3 : GC) (g3 : Text) (c4 : GC) (g4 : Text)
+    (c5 : GC) (g5 : Text) : Expr :=
+  let t := branchFromCst te c3 g3
+  let e := branchFromCst ee c5 g5
+  .ite ce t.1 e.1 (flattenGC c1 ++ g1) (collectTrivia c1 g1) g1 (collectTrivia c2 g2) g2 t.2 (flattenGC c3 ++ g3)
+    (collectTrivia c4 g4) g4 e.2 (flattenGC c5 ++ g5) [] []
+
 mutual
 /-- `tree_sitter_node_to_expression(node)` on the fragment -/
 def Cst.parse : Cst → Except Err Expr
@@ -453,6 +489,23 @@ def Cst.parse : Cst → Except Err Expr
       match r.parse with
       | .error err => .error err
       | .ok re => .ok (.bin op le re (g1.count '\n') (g2.count '\n') [] [])
+  | .ite c1 g1 c c2 g2 c3 g3 t c4 g4 c5 g5 e =>
+    -- (the consequence and the alternative are converted first, the condition last)
+    match t.parse with
+    | .error err => .error err
+    | .ok te =>
+      match e.parse with
+      | .error err => .error err
+      | .ok ee =>
+        match c.parse with
+        | .error err => .error err
+        | .ok ce => .ok (iteFromCst ce te ee c1 g1 c2 g2 c3 g3 c4 g4 c5 g5)
+  | .has e c1 g1 c2 g2 attrs =>
+    -- `HasAttrExpression.from_cst`: before_question_comments, left_gap / after_question_comments, right_gap =
+    -- collect_comments_between_with_gap(…, allow_inline=True) on both sides of `?`
+    match e.parse with
+    | .error err => .error err
+    | .ok ee => .ok (.has ee attrs g1 g2 (collectTrivia c1 g1) (collectTrivia c2 g2) [] [])
 /-- the loop of `parse_delimited_sequence` -/
 def Items.parseSeq : Items → Mode → SeqSt → Except Err SeqSt
   | .nil, _, st => .ok st
